@@ -231,47 +231,24 @@ Lemma wrapped_open_quote_panics :
 Proof. vm_compute. repeat split. Qed.
 
 (* ------------------------------------------------------------------ entries with the '-' mark *)
-Lemma parse_entry_text e :
-  exclude_prefix = [45] -> has_prefix (show (snd e)) [45] = false ->
+(* ParseRegexpListItem recovers the mark and the rule text from an entry's text: exactly one leading '-' is the
+   mark.  An exclude rule may itself begin with hyphens ("--staging" excludes the expression "-staging"); an include
+   rule that begins with a hyphen cannot be written (it would read as an exclusion), hence the side condition. *)
+Lemma parse_entry_roundtrip e :
+  exclude_prefix = [45] -> fst e = true \/ has_prefix (show (snd e)) [45] = false ->
   parse_entry (entry_text e) = (fst e, show (snd e)).
 Proof.
   intros Hp Hn. unfold parse_entry, entry_text. rewrite Hp. destruct e as [[|] r]; cbn [fst snd] in *.
   - reflexivity.
-  - cbn [app]. rewrite Hn. reflexivity.
-Qed.
-
-(* the text of an item never begins with '-' *)
-Lemma show_item_no_dash x : has_prefix (show_item x) [45] = false.
-Proof.
-  induction x using item_ind'; try reflexivity.
-  - (* Lit *) cbn [show_item]. unfold is_alpha, is_upper, is_lower, is_digit.
-    destruct (((65 <=? c) && (c <=? 90) || (97 <=? c) && (c <=? 122)) || (48 <=? c) && (c <=? 57)) eqn:E.
-    + cbn [has_prefix]. destruct (45 =? c) eqn:E2; [|reflexivity].
-      apply N.eqb_eq in E2. subst c. discriminate.
-    + destruct (c =? 10); reflexivity.
-  - (* Rep *) cbn [show_item]. destruct (show_item x) as [|d r]; [destruct k; reflexivity|].
-    cbn [app has_prefix] in *. exact IHx.
+  - destruct Hn as [Hn|Hn]; [discriminate|]. cbn [app]. rewrite Hn. reflexivity.
 Qed.
 
 Lemma show_item_nonempty x : show_item x <> [].
 Proof.
   destruct x; cbn [show_item]; try discriminate.
-  - destruct (is_alpha c || is_digit c); [discriminate|]. destruct (c =? 10); discriminate.
+  - destruct (is_alpha c || is_digit c || (c =? 45)); [discriminate|]. destruct (c =? 10); discriminate.
   - destruct (show_item x); [destruct k; discriminate|discriminate].
 Qed.
-
-Lemma show_no_dash r : has_prefix (show r) [45] = false.
-Proof.
-  destruct r as [|x r]; [reflexivity|]. unfold show. cbn [flat_map].
-  pose proof (show_item_no_dash x) as H. pose proof (show_item_nonempty x) as Hn.
-  destruct (show_item x) as [|d t]; [contradiction|].
-  cbn [app has_prefix] in *. exact H.
-Qed.
-
-(* ParseRegexpListItem recovers the mark and the rule text from an entry's text *)
-Lemma parse_entry_roundtrip e :
-  exclude_prefix = [45] -> parse_entry (entry_text e) = (fst e, show (snd e)).
-Proof. intro Hp. apply parse_entry_text; [exact Hp | apply show_no_dash]. Qed.
 
 Lemma show_nil_iff r : show r = [] <-> r = [].
 Proof.
